@@ -5,7 +5,7 @@ Steps (all in a scratch worktree /tmp/mutc of /repo HEAD): patch applies; librar
 the demonstration prints PROPERTY VIOLATED with the patch and PROPERTY HOLDS without it."""
 import json, os, re, shutil, subprocess, sys
 out, X, agent_wt = sys.argv[1], sys.argv[2], sys.argv[3].rstrip("/")
-M = "/tmp/mutc"
+M = "/tmp/mutc" + os.environ.get("SLOT", "")
 def sh(cmd, **kw):
     return subprocess.run(cmd, shell=True, capture_output=True, text=True, **kw)
 if not os.path.isdir(M):
@@ -17,7 +17,7 @@ patch = "%s/%s.diff" % (out, X)
 r = sh("git -C %s apply --check %s" % (M, patch))
 if r.returncode:
     sys.exit("patch does not apply: " + r.stderr)
-work = "/tmp/mutc_demo"
+work = M + "_demo"
 shutil.rmtree(work, ignore_errors=True)
 shutil.copytree(out, work)
 def clean(cmd):
